@@ -87,6 +87,9 @@ def run(cx):
     # flags: setter and tester must address the same bit
     from props.C04 import inst_fragment_flags
     inst_fragment_flags(cx, "C12.h")
+    # the resend queue is examined head-first and the scan stops at the first entry that is not yet due
+    from props.shared import heap_order
+    heap_order(cx, "C12.i", ["resend"])
 
 
 def drop_guard(cx, iid):
